@@ -1209,3 +1209,89 @@ func r1511(c *Ctx, r *R) {
 		}
 	}
 }
+
+func init() {
+	register(&Rule{ID: "R15.12", Props: []string{"C15"}, Floor: 14, Title: "loaders drop no parse error: on the from-JSON side every callee that is given input and returns an error has that error examined (a malformed duration, address or key is refused, not replaced by the default)", Run: r1512})
+}
+
+func r1512(c *Ctx, r *R) {
+	for _, cc := range c.componentConfigs(r) {
+		loadRoot, _ := c.P.FuncDecl(cc.rel, cc.name+".LoadJSON")
+		if loadRoot == nil {
+			continue
+		}
+		label := cc.rel + "." + cc.name
+		roots := []*ast.FuncDecl{loadRoot}
+		if env, _ := c.P.FuncDecl(cc.rel, cc.name+".ApplyEnvVars"); env != nil {
+			roots = append(roots, env)
+		}
+		seenF := map[*ssa.Function]bool{}
+		var probs []string
+		var first token.Pos
+		for _, root := range roots {
+			for _, d := range funcsCalledFrom(c.P, cc.pkg, root) {
+				obj, _ := cc.pkg.TypesInfo.Defs[d.Name].(*types.Func)
+				if obj == nil {
+					continue
+				}
+				f := c.P.SSA.FuncValue(obj)
+				if f == nil || f.Blocks == nil || seenF[f] {
+					continue
+				}
+				seenF[f] = true
+				instrs(f, func(i ssa.Instruction) {
+					x, ok := i.(*ssa.Call)
+					if !ok {
+						return
+					}
+					sig := x.Common().Signature()
+					n := sig.Results().Len()
+					if n == 0 || sig.Results().At(n-1).Type().String() != "error" {
+						return
+					}
+					cn := callName(x.Common())
+					if nameMatches(cn, "(*go.uber.org/zap.SugaredLogger)", "fmt.Fprint", "(*bytes.Buffer).Write", "(*strings.Builder).Write") {
+						return
+					}
+					// input-free calls (cfg.Default()) cannot fail on input
+					args := x.Common().Args
+					if sig.Recv() != nil && !x.Common().IsInvoke() && len(args) > 0 {
+						args = args[1:]
+					}
+					hasInput := false
+					for _, a := range args {
+						if _, isK := constOf(a); !isK {
+							hasInput = true
+						}
+					}
+					if !hasInput {
+						return
+					}
+					// the whole outcome is discarded (an expression
+					// statement). `v, _ := parse(x)` is a different idiom:
+					// a failure leaves the zero value in v, which the
+					// validation that ends every loader (R15.2) sees.
+					used := false
+					if x.Referrers() != nil {
+						for _, ref := range *x.Referrers() {
+							if _, isDbg := ref.(*ssa.DebugRef); !isDbg {
+								used = true
+							}
+						}
+					}
+					if !used {
+						probs = append(probs, fmt.Sprintf("%s discards the outcome (error included) of %s at %s", f.Name(), shortName(x), c.P.Pos(x.Pos())))
+						if !first.IsValid() {
+							first = x.Pos()
+						}
+					}
+				})
+			}
+		}
+		if len(probs) == 0 {
+			r.OK("loader:"+label, loadRoot.Pos(), "no dropped parse error on the load side")
+		} else {
+			r.Bad("loader:"+label, first, "%s: malformed input is silently accepted and the setting keeps its previous/default value (settings parsed after it by the same call are skipped as well)", strings.Join(probs, "; "))
+		}
+	}
+}
